@@ -17,6 +17,8 @@ PRELUDE = ["hvnum.ml", "hvdump.ml"]
 def prebuild():
     C.build_harness("hwv_topo", ["hwv_topo.c"], deps=DEPS)
     C.extract("C01", "drv_c01.ml", prelude=PRELUDE)
+    with S.Scratch(cache=True) as scratch:      # unpack the bundled snapshots once (keyed by tarball hash)
+        scratch.unpack_all(S.snapshots("linux") + S.snapshots("x86"))
 
 
 def flag_choices(rng, kind):
@@ -192,6 +194,7 @@ def make_cases(run, scratch):
                               ["env HWLOC_LIBXML_IMPORT " + backend] + cfg + ["src xml " + x], "xml"))
     lin = S.snapshots("linux")
     x86 = S.snapshots("x86")
+    scratch.unpack_all(lin + x86)
     # "no object of a filtered-out type is present": every filterable normal type set to KEEP_NONE, one at a time,
     # on every x86 dump (cheap) and on the sampled Linux snapshots (seeded change C01b: Die objects built under the
     # wrong filter in topology-x86.c)
@@ -286,7 +289,7 @@ def run_cases(run, cases, exe, drv):
     hwloc caches the XML backend choice (HWLOC_LIBXML_IMPORT) in a static on first use, so
     a shard only holds cases of one backend choice."""
     results = {}   # idx -> dict(load, wf, levels, sets, totals, check, crash)
-    shard = 40
+    shard = 12
     import concurrent.futures as cf
 
     groups = {}
@@ -377,17 +380,24 @@ def judge(run, cases, results):
 
 
 def check(run, replay=None):
+    import time as _t
+    t0 = _t.time()
     proof = C.prove("C01")
     exe = C.build_harness("hwv_topo", ["hwv_topo.c"], deps=DEPS)
     drv = C.extract("C01", "drv_c01.ml", prelude=PRELUDE)
-    with S.Scratch() as scratch:
+    run.cov["seconds_prove_build_extract"] = round(_t.time() - t0, 1)
+    with S.Scratch(cache=True) as scratch:
         if replay:
             txt = open(replay).read().split("---\n", 1)[1].split("\n--- ")[0]
             lines = [l for l in txt.split("\n") if l and l not in ("new", "load", "dump", "check", "destroy")]
             cases = [("replay", lines, "replay")]
         else:
+            t1 = _t.time()
             cases = make_cases(run, scratch)
+            run.cov["seconds_generate_cases"] = round(_t.time() - t1, 1)
+        t2 = _t.time()
         results = run_cases(run, cases, exe, drv)
+        run.cov["seconds_run_cases"] = round(_t.time() - t2, 1)
         judge(run, cases, results)
     run.cov["rule"] = "one case = (source, type filters, flags); non-trivial = load succeeded; distinct = distinct (case, verdict)"
     run.assumptions += ["Linux/x86/PCI backends are not modelled: for them C01 is decided by the verified checker wf_check run on the dump of every loaded topology (spec evaluation), not by a theorem about the backend"]
